@@ -79,13 +79,32 @@ func (ex *Exec) callVF(caller *frame, fn *ssa.Function, args []Value) (Value, bo
 		P.assert(smt.ULt(v, smt.BVC(64, uint64(k))))
 		return v, true
 	case "UF1":
-		t := smt.App("uf_"+str(0), smt.BV(64), args[1].(*smt.Term))
-		P.ufApps = append(P.ufApps, t)
-		return t, true
+		return P.ufApply("uf_"+str(0), 64, args[1].(*smt.Term)), true
 	case "UF2":
-		t := smt.App("uf_"+str(0), smt.BV(64), args[1].(*smt.Term), args[2].(*smt.Term))
-		P.ufApps = append(P.ufApps, t)
-		return t, true
+		return P.ufApply("uf_"+str(0), 64, args[1].(*smt.Term), args[2].(*smt.Term)), true
+	case "Rank1":
+		// uninterpreted function into 0..15 (enough to induce every total preorder on <= 16 values)
+		t := P.ufApply("uf_"+str(0), 4, args[1].(*smt.Term))
+		return smt.Resize(t, 64, false), true
+	case "SameTerms":
+		// true iff the two slices hold the same multiset of *syntactically identical* terms
+		a, b := args[0].(Slice), args[1].(Slice)
+		if len(a) != len(b) {
+			return smt.False, true
+		}
+		cnt := map[[2]uint64]int{}
+		for _, x := range a {
+			cnt[x.(*smt.Term).Key()]++
+		}
+		for _, x := range b {
+			cnt[x.(*smt.Term).Key()]--
+		}
+		for _, v := range cnt {
+			if v != 0 {
+				return smt.False, true
+			}
+		}
+		return smt.True, true
 	case "Assume":
 		c := args[0].(*smt.Term)
 		if c.IsConst() {
